@@ -40,8 +40,23 @@ PoolRun(free, evs, i) ==
             ELSE IF e[3] \in free THEN [free |-> free, bad |-> e[3]]      \* returned twice
             ELSE PoolRun(free \cup {e[3]}, evs, i + 1)
 
-(* the integer value of every cell: terms do not grow along a trace *)
-Normalize(S) == [S EXCEPT !.heap = [c \in 1..Len(S.heap) |-> <<"ix", IEval(S.heap[c])>>]]
+(* truth value of a mask entry (the constants, or predicate terms over element values) *)
+RECURSIVE MEval(_)
+MEval(m) == CASE m[1] = "t" -> 1
+              [] m[1] = "f" -> 0
+              [] m[1] = "or"  -> IF MEval(m[2]) = 1 \/ MEval(m[3]) = 1 THEN 1 ELSE 0
+              [] m[1] = "and" -> IF MEval(m[2]) = 1 /\ MEval(m[3]) = 1 THEN 1 ELSE 0
+              [] OTHER -> IEval(m)
+
+(* the integer value of every cell and the truth value of every mask entry: terms do not grow along a trace *)
+Normalize(S) == [S EXCEPT !.heap = [c \in 1..Len(S.heap) |-> <<"ix", IEval(S.heap[c])>>],
+                          !.allocs = [a \in 1..Len(S.allocs) |->
+                                        [S.allocs[a] EXCEPT !.mask = [i \in 1..Len(S.allocs[a].mask) |->
+                                                                        IF MEval(S.allocs[a].mask[i]) = 1 THEN MT ELSE MF]]]]
+
+(* the mask of a tensor as MaskAt reports it, per logical element (0 everywhere when the storage has no mask) *)
+MaskBitsOfT(S, t) == [k \in 1..Len(t.cells) |-> MEval(MaskBit(S, t.cells[k]))]
+MaskObsOK(S, ev, h) == S.allocs[S.live[h].al].mopen \/ ev.obs[h].mask = MaskBitsOfT(S, S.live[h])
 
 ElemsOfT(S, t) == [k \in 1..Len(t.cells) |-> IEval(S.heap[t.cells[k]])]
 
@@ -49,7 +64,8 @@ ObsMatch(S, ev, dd) ==
     /\ Len(ev.obs) = Len(S.live)
     /\ \A h \in 1..Len(S.live) :
          h \in dd \/ (/\ ev.obs[h].shape = S.live[h].shape
-                      /\ ev.obs[h].elems = ElemsOfT(S, S.live[h]))
+                      /\ ev.obs[h].elems = ElemsOfT(S, S.live[h])
+                      /\ MaskObsOK(S, ev, h))
     /\ \A a \in 1..Len(S.allocs) :
          S.allocs[a].kind = "b" =>
             ev.backs[a] = [i \in 1..S.allocs[a].len |-> IEval(S.heap[S.allocs[a].start + i - 1])]
@@ -62,6 +78,9 @@ FirstBad(S, ev, dd) ==
     ELSE IF \E h \in 1..Len(S.live) : h \notin dd /\ ev.obs[h].elems # ElemsOfT(S, S.live[h])
          THEN LET h == CHOOSE h \in 1..Len(S.live) : h \notin dd /\ ev.obs[h].elems # ElemsOfT(S, S.live[h])
               IN <<"elems", h, ev.obs[h].elems, ElemsOfT(S, S.live[h])>>
+    ELSE IF \E h \in 1..Len(S.live) : h \notin dd /\ ~MaskObsOK(S, ev, h)
+         THEN LET h == CHOOSE h \in 1..Len(S.live) : h \notin dd /\ ~MaskObsOK(S, ev, h)
+              IN <<"mask", h, ev.obs[h].mask, MaskBitsOfT(S, S.live[h])>>
     ELSE <<"backing">>
 
 Empty == [heap |-> <<>>, allocs |-> <<>>, live |-> <<>>]
